@@ -22,6 +22,7 @@ func init() {
 			"R2 the AVP built by marshal takes Code and VendorID from the dictionary AVP found for the tag, and its Flags are composed only of Mbit — on the edge where the dictionary's Must contains \"M\" — and Vbit — on the edge VendorID > 0; " +
 			"R3 Marshal replaces m.AVP and then recomputes Header.MessageLength from m.Len(); " +
 			"R4 the struct scanner builds its field index from, and recurses into embedded structs with, its own complete AVP list; R5 for pointer and interface fields 'empty' is exactly IsNil(). " +
+			"R2 also: exactly one AVP is produced per marshalled value (slices: one per element). R6 no function on the Marshal / Unmarshal path writes package-level state, so concurrent calls and calls in sequence cannot influence one another. " +
 			"NOT decided (not applicable to static analysis): that Unmarshal∘Marshal is the identity over field shapes and values — reflection-driven, value-level behaviour that only execution can settle; parseAvpTag's string handling.",
 		Rules: map[string]string{
 			"R1": "marshal's type switch is exhaustive over datatype.Available and each case targets the type whose Type() is the case constant",
